@@ -34,7 +34,13 @@ def generate(rng, tier):
     for _ in range(rng.randint(0, 3)):
         serial += 1
         local.append([rng.choice(dests), rng.choice(PRIOS), serial])
-    return {"posters": posters, "local": local, "dests": dests,
+    burst = []
+    if rng.random() < 0.3:
+        for _ in range(rng.randint(1, 3)):
+            serial += 1
+            burst.append([rng.choice([d for d in dests if d != "L"]), rng.choice(PRIOS), serial])
+    return {"posters": posters, "local": local, "dests": dests, "last_burst": burst,
+            "periodic": rng.random() < 0.5,
             "late_after": rng.randint(0, 6), "shutdown_after": rng.choice([None, None, 3, 8, 15]),
             "opcode_p": rng.choice([0.0, 0.05, 0.2]), "line_p": rng.choice([0.0, 0.02, 0.1])}
 
@@ -57,6 +63,10 @@ def shrink_candidates(case):
     if case["shutdown_after"] is not None:
         c = copy.deepcopy(case)
         c["shutdown_after"] = None
+        yield c
+    for j in range(len(case.get("last_burst", []))):
+        c = copy.deepcopy(case)
+        del c["last_burst"][j]
         yield c
 
 
@@ -94,6 +104,16 @@ def execute(case, tape):
                 def _on_x(self, sender, msg, t):
                     H.append(("handle", msg.content, self.name, ev(), sim.current.name, sender))
             recs = {d: Rec(d, log, sim) for d in case["dests"]}
+            if case.get("periodic"):
+                # a slow periodic action (agents of many algorithms and the orchestrated
+                # agents have one): the agent thread spends virtual time between two polls
+                in_periodic = [False]
+
+                def slow_action():
+                    in_periodic[0] = True
+                    sim.sleep(0.03)
+                    in_periodic[0] = False
+                b.on_agent("A", lambda: A.set_periodic_action(0.04, slow_action))
 
             def register(name):
                 def fn():
@@ -140,6 +160,17 @@ def execute(case, tape):
             else:
                 sim.block(lambda: posted[0] >= case["shutdown_after"] or
                           all(t.state == threadsim.DONE for t in threads), 100.0)
+            if case.get("last_burst"):
+                # the agent is slow (stalled, or busy in its periodic action) while a last burst
+                # arrives, then shutdown is asked
+                if case.get("periodic"):
+                    sim.block(lambda: in_periodic[0], 1.0)
+                sim._stall = [A.t, 4 + 3 * len(case["last_burst"])]
+                sim.stats["stalls"] += 1
+                for dest, prio, serial in case["last_burst"]:
+                    H.append(("post_call", serial, "driver", dest, prio, ev()))
+                    A._messaging.post_msg("driver", dest, b.Message("x", serial), prio)
+                    H.append(("post_ret", serial, ev()))
             H.append(("shutdown_call", ev()))
             A.clean_shutdown()
             A.join()
@@ -264,7 +295,7 @@ def check_history(H, case):
 
 
 RUN_TIMEOUT_S = 120
-BUDGET = {"quick": (16000, 75), "thorough": (300000, 900)}
+BUDGET = {"quick": (10000, 75), "thorough": (300000, 1200)}
 REAL = ["pydcop.infrastructure.communication.Messaging (post_msg/next_msg/"
         "_on_computation_registration/shutdown)", "Agent (_run, clean_shutdown, add_computation)",
         "Discovery", "Directory", "InProcessCommunicationLayer"]
